@@ -28,6 +28,7 @@ type c11Spec struct {
 	Fill     uint64 `json:"fill_seed"` // 0: zero fill
 	Head     []byte `json:"head,omitempty"`    // overrides image[0:len(Head)] (arbitrary header bytes)
 	Program  []byte `json:"program,omitempty"` // placed at 0x0100 (after Head)
+	Far      bool   `json:"far,omitempty"`     // place Program at 0x0150 behind a JP at 0x0100, clear of the header bytes
 }
 
 type c11Op struct {
@@ -69,7 +70,12 @@ func c11Build(s c11Spec) []byte {
 	}
 	put(0x147, []byte{s.CartType, s.RomSize, s.RamSize})
 	put(0, s.Head)
-	put(0x100, s.Program)
+	if s.Far {
+		put(0x100, []byte{0xc3, 0x50, 0x01})
+		put(0x150, s.Program)
+	} else {
+		put(0x100, s.Program)
+	}
 	return img
 }
 
@@ -381,6 +387,7 @@ func TestC11(t *testing.T) {
 		s := specGen.Draw(rt, "spec")
 		s.Fill = 0
 		s.Program = c11GenProgram(rt)
+		s.Far = true
 		// interrupt vectors return
 		s.Head = make([]byte, 0x68)
 		for v := 0x40; v <= 0x60; v += 8 {
